@@ -11,7 +11,6 @@ import (
 	"math/big"
 	"regexp"
 	"sort"
-	"strconv"
 	"strings"
 )
 
@@ -625,10 +624,28 @@ func (e *Exec) trQuant(x *SQuant, env *SpecEnv) TV {
 		binders = append(binders, "("+n+" Int)")
 	}
 	bs := strings.Join(binders, " ")
+	var txt string
 	if x.Forall {
-		return TV{Term{fmt.Sprintf("(forall (%s) %s)", bs, Implies(And(guards...), body.T).S), SBool}, specBoolT}
+		txt = fmt.Sprintf("(forall (%s) %s)", bs, Implies(And(guards...), body.T).S)
+	} else {
+		txt = fmt.Sprintf("(exists (%s) %s)", bs, And(append(guards, body.T)...).S)
 	}
-	return TV{Term{fmt.Sprintf("(exists (%s) %s)", bs, And(append(guards, body.T)...).S), SBool}, specBoolT}
+	// canonical bound-variable names (content hash): syntactically equal formulas become textually equal,
+	// so that the solver need not prove two copies of the same quantified formula equivalent
+	ph := txt
+	for i, n := range names {
+		ph = strings.ReplaceAll(ph, n, fmt.Sprintf("#%d#", i))
+	}
+	h := sha256.Sum256([]byte(ph))
+	var hn uint64
+	for _, b := range h[:6] {
+		hn = hn<<8 | uint64(b)
+	}
+	for i, n := range names {
+		base := n[:strings.IndexByte(n, '!')]
+		txt = strings.ReplaceAll(txt, n, fmt.Sprintf("%s!q%d%02d", base, 1000000+hn%900000000, i))
+	}
+	return TV{Term{txt, SBool}, specBoolT}
 }
 
 // tryTr translates an expression, reporting failure instead of aborting.
@@ -997,12 +1014,7 @@ func (e *Exec) predCall(sf *SpecFunc, sfPkg *types.Package, args []TV, env *Spec
 		}
 	}
 	body := e.tr(sf.Body, n)
-	for _, m := range qvarRe.FindAllStringSubmatch(body.T.S, -1) {
-		k, _ := strconv.Atoi(m[1])
-		if k <= marker {
-			return TV{}, false
-		}
-	}
+	_ = marker
 	if env.cur.probe != nil {
 		return TV{}, false
 	}
